@@ -144,7 +144,7 @@ CHECKS['C09'] = dict(level=MC, ref='4 C09',
          'sector, no increase when nothing binds) and measured verdicts (normalised, canonical, same sector, converged untruncated run => eigenstate, penalty runs orthogonal and at the next level). Project lists mixing (penalty, state) tuples and bare states in either order must give a state orthogonal to every listed one at the next level. (d) the STOPPING RULE, modelled in TraceEnv (dmrg_stop): in iterator mode with energy_tol and / or Schmidt_tol the run goes on only while a given criterion is unmet and stops early only when ALL given criteria are met.',
     note='energies / norms / residuals / reference eigenvalues (numpy eigvalsh of the sector block of the dense H) are floating-point observations (2e-5 on energies); TLC decides the protocol and '
          'the relations. bounded: N=2..6, 5 families, single MPO and sums, D0 1..16, D_total 2/4/64, ncv 2/3/6, 1..4 sweeps with method switches; 48/700 runs + 24/350 convergence/penalty runs '
-         '(real and complex couplings)',
+         '(real and complex couplings). One open KNOWN FINDING (root cause in eigs, C18): a sweep raises the energy of a state that already is an eigenstate of the sector (canonical reproducer in every run)',
     technique='TLA+ cache-coherence protocol (EnvCoherence) + sweep schedules (Sweeps) + TLC + trace validation of recorded real runs incl. exact schedule equality')
 CHECKS['C10'] = dict(level=MC, ref='4 C10',
     text='Shares EnvCoherence / Sweeps with C09. Sweeps.tla writes _tdvp_sweep_1site_/2site_/12site_ as exact event sequences (12site threaded through the recorded enlarge_bond decisions, several '
